@@ -190,6 +190,20 @@ CHECKS = {
         "level_note": "trusts ref.NormalizeText (25 lines); at a comment boundary only what the statement fixes is judged (no comment text in the output, non-whitespace text intact, ://-text verbatim)",
         "assumptions": ["join spacing where a comment separates two text pieces is not judged"],
     },
+    "C16": {
+        "test": "TestC16", "level": "exploration", "needs_node": True,
+        "quick": {"shards": 8, "checks": 2500, "timeout": 900},
+        "thorough": {"shards": 16, "checks": 40000, "timeout": 3400},
+        "rule": "strings (arbitrary Unicode, arbitrary bytes incl. invalid UTF-8 on the Go side, pieces from a hostile alphabet, runs of 50-2000 repetitions) "
+                "and nested values (json) through one directive (escapeUri, escapeJsString, json, changeNewlineToBr, insertWordBreaks, truncate with limits "
+                "around the value's length and all ellipsis settings), one case in three through the JavaScript counterpart in node, truncate also "
+                "chained into a second directive; non-trivial = the value contains what the directive must transform, or its length is within 3 of the limit",
+        "technique": "property-based testing (rapid) with independent decoders: query-unescape, evaluation between quotes in node, JSON parse with exact numbers, HTML reference decoding, structural truncate predicate",
+        "level_text": PBT + "each output is decoded by an independent decoder (Go standard library or node) and compared with the input; structural predicates for break insertion and truncation",
+        "level_note": "Go lengths are characters, JavaScript lengths UTF-16 units; the sub-delimiters ! * ' ( ) that encodeURIComponent keeps count as URL-safe",
+        "assumptions": ["NUL through the HTML-producing directives is not judged; values that JavaScript or JSON cannot represent (invalid UTF-8, integers beyond 2^53) are excluded on that side and counted",
+                        "open finding F34 (JavaScript insertWordBreaks splits surrogate pairs) is excluded by construction"],
+    },
     "C17": {
         "test": "TestC17", "level": "exploration", "crashy": True,
         "quick": {"shards": 8, "checks": 6000, "timeout": 900},
